@@ -52,8 +52,11 @@ func render(q string, input any, opts ...gojq.CompilerOption) string {
 	if err != nil {
 		return "parse-error: " + err.Error()
 	}
-	code, err := gojq.Compile(query, opts...)
+	code, err := safeCompile(query, opts...)
 	if err != nil {
+		if m := isCompilePanic(err); m != "" {
+			return "PANIC " + m
+		}
 		return "compile-error: " + err.Error()
 	}
 	r := run.Exec(code, input, ambSteps, ambOuts)
